@@ -385,6 +385,12 @@ def parse_alloc_sites(files):
                 expr = inner.split(";", 1)[1]
                 kind = "vec!"
             expr = re.sub(r"\s+", "", expr)
+            # only the code a READ goes through: the reader, the record readers and their helpers;
+            # conversions between in-memory values (`from`, `try_from`, `convert_*`) size their
+            # results by collections that already exist and are not part of the claim
+            on_read_path = rel == "reader.rs" or fn.startswith("read") or fn in ("vec_for_count_from_file", "new")
+            if not on_read_path:
+                continue
             text = f"{rel}:{fn}:{kind}({expr})"
             h = int(hashlib.sha1(text.encode()).hexdigest()[:12], 16)
             sites.append((text, h))
